@@ -1,6 +1,6 @@
 (* Entry points of the extracted model: one line in, one line out. *)
 From Coq Require Import List ZArith NArith Bool String.
-From WF Require Import Base.Bytes Base.Sexp Run.C09 Run.Lang.
+From WF Require Import Base.Bytes Base.Sexp Run.C09 Run.Lang Run.C08 Run.C16 Run.C10.
 Import ListNotations.
 Open Scope string_scope.
 
@@ -10,7 +10,8 @@ Definition first_some {A} (l : list (option A)) : option A :=
 Definition run_case (spec : bool) (c : sexp) : sexp :=
   match c with
   | SList (head :: args) =>
-      match first_some [run_C09 spec head args; run_lang spec head args] with
+      match first_some [run_C09 spec head args; run_lang spec head args; run_C08 spec head args;
+                        run_C16 spec head args; run_C10 spec head args] with
       | Some r => r
       | None => bad_case
       end
